@@ -307,6 +307,9 @@ fn routing_sweep(t: &mut Tally) {
         ("v = 5".into(), Form::NvLit(LitK::Other, 0)),
         ("v = 1.5".into(), Form::NvLit(LitK::Other, 0)),
         ("v = b\"x\"".into(), Form::NvLit(LitK::Other, 0)),
+        ("v = -5".into(), Form::NvLit(LitK::Other, 0)),
+        ("v = -1.5".into(), Form::NvLit(LitK::Other, 0)),
+        ("v = -5".into(), Form::NvLit(LitK::Other, 1)),
         ("v = a::b".into(), Form::NvExpr(0)),
         ("v = 1 + 2".into(), Form::NvExpr(0)),
         ("v = true".into(), Form::NvLit(LitK::Bool, 1)),
